@@ -192,7 +192,7 @@ def run(prop, tier, seed):
     if prop == "C07":
         from . import scripted as S
         from . import execchecks as E
-        progs = [S.branch(rng) for _ in range(160 if tier == "quick" else 3000)]
+        progs = [S.branch(rng) for _ in range(600 if tier == "quick" else 6000)]
         a = C.run_impl([E.case_line("exec", "pre", 40, p, "") for p in progs])
         b = C.run_model([E.case_line("spec", "pre", 40, p, "") for p in progs])
         nbranch = len(progs)
